@@ -33,4 +33,51 @@ CLAIMED = {
          "note": TB + "path.Match/fs.Glob/Stat are environment (their verdicts are case inputs); model tied by byte-exact correspondence on real trees.",
          "technique": "Coq proof over a hand model (partial) + differential correspondence and statement-level monitor judged by vm_compute"},
 }
+
+BRK = ("Model = Model/Broker.v (admission and release sections of Broker.connect as atomic steps, both proxy loops at line/read granularity, "
+       "shutdown bookkeeping). Tie: every quick run executes thousands of operation histories on the REAL Broker inside testing/synctest "
+       "with connect's critical sections serialised through the verif hook, and compares, step by step, operator notices, log records, events, "
+       "writer calls, returns - judged in Coq - and evaluates the property's monitor on the implementation's trace. ")
+CLAIMED.update({
+ "C01": {"text": "Coq theorems over EVERY operation history (induction over the op list, invariants Inv and Tab): slots hold streams of the right "
+                 "direction with non-empty key and the SAME key when both are held; busy streams are exactly the slot holders; the admission "
+                 "decision is characterised exactly (accepts); a refused attempt changes nothing but its own bookkeeping, returns at once, gets no "
+                 "write, raises no event and is announced+logged unless shutting down; input is written only to the input-slot holder and output "
+                 "displayed only from the output-slot holder. " + BRK + "Exhaustive small scope (depth 4) + 400 random histories per quick run.",
+         "note": TB + "sync.Mutex atomicity, ConstantTimeCompare = byte equality, unguessable /io sentinel are assumptions; HTTP glue outside.",
+         "technique": "Coq proof (state invariants by induction over operation lists) + hook-serialised differential correspondence judged by vm_compute"},
+ "C06": {"text": "Coq theorem over EVERY operation history: if both slots are held and one holder is a half of /io request r, the other is a half "
+                 "of the same request (corollary of the same-key invariant; keys of different requests differ). " + BRK + "All 24 admission orders "
+                 "of two requests on 4 base states, 480 of the 1440 orders of three requests, random mixed histories; plus a stress TEST with "
+                 "really concurrent ConnectInOut calls (catches data races on the key counter, which the serialised harness cannot).",
+         "note": TB + "per-request key distinctness relies on Go's atomic counter (assumption; exercised by the stress test).",
+         "technique": "Coq proof (invariant) + exhaustive admission-order correspondence judged by vm_compute + concurrent stress test"},
+ "C04": {"text": "Coq theorems: a release cancels the peer, whose proxy (if running) has ended and logged its closure in the same step; exactly one "
+                 "'gone' notice + disconnected event in the step emptying the last slot, after which key and slots are as at start; ready notice "
+                 "exactly when an accepted stream finds the other slot held; in every reachable idle state any non-empty key is accepted (re-arm, "
+                 "unbounded number of shells); Do may return only when shut down with both slots empty. " + BRK + "PARTIAL for 'nothing keeps "
+                 "running': observed (goroutine dump after all transports closed, incl. flood with a stalled terminal), not proved.",
+         "note": TB + "goroutine/channel behaviour of proxyOut's reader is exercised, not modelled.",
+         "technique": "Coq proof (invariants + per-step characterisations) + hook-serialised correspondence judged by vm_compute + leak observation"},
+ "C02": {"text": "Coq theorems for every queue, writer kind and failure point: lines written (each + exactly one newline) followed by lines still "
+                 "queued = the queued lines in order (gap-free, duplicate-free, unmodified; undelivered lines stay for the next shell); only the "
+                 "last written line can lack its delivery record and only because its own write/flush failed and ended the shell; writes go only "
+                 "to the input-slot holder. " + BRK + "Exhaustive writer scripts (4 kinds x failure points), select-race cases, random histories. "
+                 "'Promptly' = the flush is called after every write before the next line is taken (observed on every case).",
+         "note": TB + "net/http's FlushError pushing bytes to the socket is outside; Go's select choice is explored, not modelled.",
+         "technique": "Coq proof (induction over the delivery loop) + correspondence with scripted writers judged by vm_compute"},
+ "C03": {"text": "Coq theorems: a read of the attached output stream is displayed exactly once, unmodified, before any closure notice of the step "
+                 "(also when returned together with the terminal error) and nothing else is ever displayed. PARTIAL: the model has an unbounded "
+                 "operator channel; proxyOut's bounded queues under a slow terminal are exercised (capacity 1-3, scripted drains) and judged by "
+                 "the monitor (shown = prefix of sent; complete before the close notice), not proved. " + BRK,
+         "note": TB + "relative speeds are explored as orders inside synctest, not proved over a queue model.",
+         "technique": "Coq proof over the coarse model (partial) + read-script correspondence and stalled-terminal monitor judged by vm_compute"},
+ "C11": {"text": "Coq theorems: input 'Shell I/O' records = lines written, in order, minus at most the failing last one; each displayed chunk has "
+                 "exactly one record with the same bytes; a refused attempt outside shutdown has exactly one error record. " + BRK + "Records are "
+                 "captured through a mirror of the real slog.NewJSONHandler(w, nil) (level filtering as in the program); the monitor also checks "
+                 "connect/disconnect records per stream and that the JSON output is one parsable object per line. PARTIAL: reconstruction of a "
+                 "whole session from the log is checked by the monitor, not proved.",
+         "note": TB + "slog's JSON escaping is standard library (framing checked, escaping not modelled).",
+         "technique": "Coq proof (per-step characterisations) + correspondence with a mirrored JSON handler judged by vm_compute"},
+})
 NOT_CLAIMED = {}
